@@ -453,8 +453,9 @@ digits_harness!(digits_i8, i8, i64);
 digits_harness!(digits_u8, u8, i64);
 digits_harness!(digits_i16, i16, i64);
 digits_harness!(digits_u16, u16, i64);
-digits_harness!(digits_i32, i32, i64);
-digits_harness!(digits_u32, u32, i64);
+
+// (Harnesses for 32/64/128-bit values were tried: itoap formats them with SSE2 intrinsics
+// (simd_cast), which Kani 0.68 does not support; recorded as outside in DESIGN.md.)
 
 // ---------------------------------------------------------------------------------------------
 // vacuity twin
